@@ -23,6 +23,8 @@ FrontOf(p) == SubSeq(p, 1, Len(p) - 1)
 Verdicts(r) == {r.d, r.f, r.m, r.dc, r.mc, r.im}
 ReqVerdicts(r) == {r.qd, r.qf, r.qm}      \* read as a request
 RepVerdicts(r) == {r.pd, r.pf, r.pm}      \* read as a response
+NoPatVerdicts(r) == {r.nd, r.nf, r.nm}    \* pattern validation disabled
+FmtVerdicts(r) == {r.ed, r.ef, r.em}      \* format validation enabled
 
 ErrBad(v, e) ==
    IF e.k # "schema" THEN {}
@@ -42,6 +44,8 @@ FailedAt(v, r) ==
    (IF Cardinality(Verdicts(r)) # 1 \/ "P" \in Verdicts(r) THEN {"same_verdict"} ELSE {})
    \cup (IF Cardinality(ReqVerdicts(r)) # 1 \/ "P" \in ReqVerdicts(r) THEN {"same_verdict_as_request"} ELSE {})
    \cup (IF Cardinality(RepVerdicts(r)) # 1 \/ "P" \in RepVerdicts(r) THEN {"same_verdict_as_response"} ELSE {})
+   \cup (IF Cardinality(NoPatVerdicts(r)) # 1 \/ "P" \in NoPatVerdicts(r) THEN {"same_verdict_patterns_disabled"} ELSE {})
+   \cup (IF Cardinality(FmtVerdicts(r)) # 1 \/ "P" \in FmtVerdicts(r) THEN {"same_verdict_formats_enabled"} ELSE {})
    \cup UNION {ErrBad(v, ErrAt(r, x)) : x \in Errs(r)}
 
 LineOK(line) ==
